@@ -264,3 +264,136 @@ Theorem C03_source_parser_reveal_plate_dests_distinct :
   Cli.dests_distinct SrcParser_reveal_plate.src_parser_reveal_plate.
 Proof. exact C18SourceParser_reveal_plate.parser_reveal_plate_dests_distinct. Qed.
 Print Assumptions C03_source_parser_reveal_plate_dests_distinct.
+
+(* ---- "posterior samples learned on one stage produce identical predictions for the same experiments on every later stage" ----
+   frozen ids composed with C09's prediction model (Model/Predict.v: both shipped sample types, mean / viability / variance,
+   every oracle).  pred_view s = the screen as the prediction code reads it (sample_ids and the columns of treatment_ids of s);
+   sample_at / treat_at = WHICH experiment a row is (sample name, (treatment name, dose) per column). *)
+From Coq Require Import QArith Qcanon.
+From Batchie Require Lib.Num Model.Predict Generated.SrcPredict Proofs.C09Source.
+From Batchie Require Import Proofs.C03Predict Proofs.C03PredictSource Proofs.C03PredictWitness.
+
+(* any two screens frozen to one parent: the same experiment gets the same prediction from the same posterior sample *)
+Theorem C03_predict_stable : forall (orc : Num.oracle) k th p s1 s2 i j v1 v2,
+  frozen_to p s1 -> frozen_to p s2 -> s_arity s1 = s_arity s2 ->
+  (i < length (s_rows s1))%nat -> (j < length (s_rows s2))%nat ->
+  sample_at s1 i = sample_at s2 j ->
+  (forall c, (c < s_arity s1)%nat -> treat_at s1 i c = treat_at s2 j c) ->
+  Predict.theta_predict orc k th (pred_view s1) = Ok v1 ->
+  Predict.theta_predict orc k th (pred_view s2) = Ok v2 ->
+  nth i v1 0%Qc = nth j v2 0%Qc.
+Proof. exact predict_stable. Qed.
+Print Assumptions C03_predict_stable.
+
+(* a whole later stage s2 whose row j is experiment idx[j] of stage s1 (any order, repeats, any subset): if s1 can be
+   predicted, s2 can (no IndexError appears at a later stage) and its prediction is the corresponding entries of s1's *)
+Theorem C03_predict_stable_stage : forall (orc : Num.oracle) k th p s1 s2 idx v1,
+  frozen_to p s1 -> frozen_to p s2 -> s_arity s1 = s_arity s2 ->
+  length idx = length (s_rows s2) ->
+  Forall (fun i => (i < length (s_rows s1))%nat) idx ->
+  (forall j, (j < length (s_rows s2))%nat ->
+     sample_at s1 (nth j idx 0%nat) = sample_at s2 j /\
+     forall c, (c < s_arity s1)%nat -> treat_at s1 (nth j idx 0%nat) c = treat_at s2 j c) ->
+  Predict.theta_predict orc k th (pred_view s1) = Ok v1 ->
+  Predict.theta_predict orc k th (pred_view s2) = Ok (Predict.take_idx 0%Qc idx v1).
+Proof. exact predict_stable_stage. Qed.
+Print Assumptions C03_predict_stable_stage.
+
+(* pred_view is not a second hand model of the screen: for every constructed screen of arity 1 or 2 it stands (under C09's
+   representation map Predict.pydata_of) for the object whose sample_ids / treatment_ids arrays are s_sids / s_tids *)
+Theorem C03_pred_view_is_id_arrays : forall s, constructed s -> (s_arity s = 1 \/ s_arity s = 2)%nat ->
+  Predict.pydata_of (pred_view s) = ids_object s.
+Proof. exact pred_view_pydata. Qed.
+Print Assumptions C03_pred_view_is_id_arrays.
+
+(* any two stages (either half, any two histories) of one prepared simulation, repaired construction *)
+Theorem C03_predict_stable_lifecycle : forall (orc : Num.oracle) k th p sel t1 ops1 t2 ops2 s1 s2 i j v1 v2,
+  lifecycle (carry_mappings true) p sel t1 ops1 = Ok s1 ->
+  lifecycle (carry_mappings true) p sel t2 ops2 = Ok s2 ->
+  (i < length (s_rows s1))%nat -> (j < length (s_rows s2))%nat ->
+  sample_at s1 i = sample_at s2 j ->
+  (forall c, (c < s_arity p)%nat -> treat_at s1 i c = treat_at s2 j c) ->
+  Predict.theta_predict orc k th (pred_view s1) = Ok v1 ->
+  Predict.theta_predict orc k th (pred_view s2) = Ok v2 ->
+  nth i v1 0%Qc = nth j v2 0%Qc.
+Proof. exact predict_stable_lifecycle. Qed.
+Print Assumptions C03_predict_stable_lifecycle.
+
+(* the same stated of the TRANSLATED source on both sides: stages made by the translated reveal_plates / mask_screen /
+   unmask_screen (Generated/SrcReveal.v), predictions by the translated predict_* methods of both sample types
+   (Generated/SrcPredict.v; py_theta_predict = dispatch on the sample's class and the method) reading each stage's own id arrays *)
+Theorem C03_predict_stable_of_source : forall (orc : Num.oracle) k th p sel t1 ops1 t2 ops2 s1 s2 i j v1 v2,
+  src_lifecycle p sel t1 ops1 = Ok s1 ->
+  src_lifecycle p sel t2 ops2 = Ok s2 ->
+  (s_arity p = 1 \/ s_arity p = 2)%nat ->
+  (i < length (s_rows s1))%nat -> (j < length (s_rows s2))%nat ->
+  sample_at s1 i = sample_at s2 j ->
+  (forall c, (c < s_arity p)%nat -> treat_at s1 i c = treat_at s2 j c) ->
+  C09Source.py_theta_predict orc k th (ids_object s1) = Ok v1 ->
+  C09Source.py_theta_predict orc k th (ids_object s2) = Ok v2 ->
+  nth i v1 0%Qc = nth j v2 0%Qc.
+Proof. exact predict_stable_of_source. Qed.
+Print Assumptions C03_predict_stable_of_source.
+
+(* the construction WITHOUT the mappings (the code before the repair) violates the clause: one posterior sample, one
+   experiment, two stages of one simulation, two different predictions (witness of Proofs/C03Witness.v) *)
+Theorem C03_predict_stable_refuted_without_mappings : forall orc : Num.oracle,
+  exists rows sel p tr te s' th v1 v2,
+    mk_screen rows 1 [] None None true true = Ok p /\
+    holdout_split p sel = Ok (tr, te) /\
+    history (carry_mappings false) [Reveal [0]] tr = Ok s' /\
+    sample_at tr 0 = sample_at s' 0 /\ treat_at tr 0 0 = treat_at s' 0 0 /\
+    Predict.theta_predict orc Predict.KMean th (pred_view tr) = Ok v1 /\
+    Predict.theta_predict orc Predict.KMean th (pred_view s') = Ok v2 /\
+    nth 0 v1 0%Qc <> nth 0 v2 0%Qc.
+Proof. exact predict_stable_refuted_without_mappings. Qed.
+Print Assumptions C03_predict_stable_refuted_without_mappings.
+
+(* non-vacuity: the repaired construction on the same simulation - both stages are read as the same id rows and predicted alike *)
+Example C03_predict_stable_example : forall orc : Num.oracle,
+  pred_view w_train = Predict.Scr1 [(1, 1); (1, 1); (2, 2); (2, 2)] /\
+  pred_view w_repaired = Predict.Scr1 [(1, 1); (1, 1); (2, 2); (2, 2)] /\
+  Predict.theta_predict orc Predict.KMean w_theta (pred_view w_train) = Ok [qz 22; qz 22; qz 34; qz 34] /\
+  Predict.theta_predict orc Predict.KMean w_theta (pred_view w_repaired) = Ok [qz 22; qz 22; qz 34; qz 34].
+Proof. exact predict_stable_example. Qed.
+
+(* ---- the hold-out split linked to the source at the ID / MAPPING level (gap review g1, C03 gap 2) ----
+   `src_balanced_holdout_ids` is the WHOLE function create_plate_balanced_holdout_set_among_masked_plates of /repo's current
+   retrospective.py, re-translated on every run (configuration C03_BALANCED_HOLDOUT -> Generated/SrcHoldoutIds.v) with `screen` the
+   model Screen (rows, ids, mappings) and the two Screen(...) calls the model's constructor applied to the keyword arguments THE CALL
+   SITES pass (a call site that stopped passing treatment_mapping= / sample_mapping= translates to None there and the link fails).
+   Holdout.balanced_holdout_ids = the selection vector the loop computes from the recorded rng.choice answers (C11's model of the
+   loop), then Holdout.holdout_split: the hand model every theorem above is about. *)
+From Batchie Require Model.Retro Model.RetroHoldout Generated.SrcHoldoutIds Proofs.C03Source_Holdout Proofs.C03Source_HoldoutLifecycle.
+Theorem C03_model_is_source_holdout : forall num den counts p ds,
+  SrcHoldoutIds.src_balanced_holdout_ids num den counts p ds = balanced_holdout_ids num den counts p ds.
+Proof. exact C03Source_Holdout.src_balanced_holdout_ids_is_model. Qed.
+Print Assumptions C03_model_is_source_holdout.
+
+(* whatever the translated hold-out returns is holdout_split of the parent for a selection vector of the screen's length *)
+Theorem C03_source_holdout_is_split : forall num den counts p ds pr ds',
+  SrcHoldoutIds.src_balanced_holdout_ids num den counts p ds = Ok (pr, ds') ->
+  exists sel, length sel = length (s_rows p) /\ holdout_split p sel = Ok pr.
+Proof. exact C03Source_Holdout.src_holdout_is_split. Qed.
+Print Assumptions C03_source_holdout_is_split.
+
+(* both halves the translated hold-out returns carry the parent's mappings and number their rows by them *)
+Theorem C03_source_holdout_keeps_mappings : forall num den counts p ds pr ds' test,
+  SrcHoldoutIds.src_balanced_holdout_ids num den counts p ds = Ok (pr, ds') -> frozen_to p (half test pr).
+Proof. exact C03Source_Holdout.src_holdout_frozen. Qed.
+Print Assumptions C03_source_holdout_keeps_mappings.
+
+(* ids_frozen with EVERY step a translated source function: translated hold-out, then any history of the translated
+   reveal_plates / mask_screen / unmask_screen (and save + load) on either half *)
+Theorem C03_ids_frozen_of_source_full : forall num den counts p ds test ops s,
+  C03Source_HoldoutLifecycle.src_lifecycle_full num den counts p ds test ops = Ok s -> frozen_to p s.
+Proof. exact C03Source_HoldoutLifecycle.ids_frozen_of_source_full. Qed.
+Print Assumptions C03_ids_frozen_of_source_full.
+
+(* non-vacuity: the translated hold-out on the witness parent (fraction 1, rng.choice answered [1; 0] for the one unobserved plate)
+   returns the halves with the parent's sample ids 1 1 2 2 / 0 0 *)
+Example C03_source_holdout_example :
+  option_map (fun x => (s_sids (fst (fst x)), s_sids (snd (fst x)), snd x))
+             (match SrcHoldoutIds.src_balanced_holdout_ids 1 1 None w_parent [Retro.DInts [1%nat; 0%nat]] with Ok x => Some x | Err _ => None end)
+  = Some ([1; 1; 2; 2], [0; 0], []).
+Proof. vm_compute. reflexivity. Qed.
